@@ -71,7 +71,8 @@ def run(name, checks):
             rc, out = sh("./check %s --tier quick" % c, cwd=VERIF, timeout=3600)
             lines = [l for l in out.split("\n") if l.startswith("VIOLATION") or l.startswith("KNOWN")]
             results[c] = {"exit": rc, "lines": lines[:6], "concrete": sum(1 for l in lines if l.startswith("VIOLATION") and not l.endswith("no-failing-input-found")), "no_input": sum(1 for l in lines if l.endswith("no-failing-input-found"))}
-            print(c, "exit", rc, *lines[:3], sep="\n  ")
+            vio = [l for l in lines if l.startswith("VIOLATION")]
+            print("%s exit=%d violations=%d known=%d" % (c, rc, len(vio), len(lines) - len(vio)), *vio[:3], sep="\n  ")
     finally:
         sh("git checkout -- .", cwd=REPO)
         # the generated Coq files were regenerated from the changed tree: bring them back to the real one
